@@ -34,10 +34,10 @@ import (
 )
 
 type vcliC09Params struct {
-	InitWin     int64  `json:"server_initial_window"`
-	MaxFrame    uint32 `json:"server_max_frame_size"` // 0: not sent
-	SettingsLag bool   `json:"requests_start_before_server_settings"`
-	DelayPct    int    `json:"failpoint_delay_pct"`
+	InitWin     int64   `json:"server_initial_window"`
+	MaxFrame    uint32  `json:"server_max_frame_size"` // 0: not sent
+	SettingsLag bool    `json:"requests_start_before_server_settings"`
+	DelayPct    int     `json:"failpoint_delay_pct"`
 	Bodies      []int64 `json:"body_sizes"`
 	Declared    []bool  `json:"content_length_declared"`
 	Chunks      []int   `json:"body_read_chunk"`
